@@ -3,7 +3,7 @@
    evaluator.rs, the handlers of lsp/references.rs); vocabulary: spec/NavSpec.v. *)
 From Coq Require Import List NArith Arith Bool Permutation.
 Import ListNotations.
-From Mos Require Import model.SymGraph model.Analysis spec.NavSpec proofs.SymGraphProofs proofs.NavProofs proofs.GreedyProofs proofs.FuelProofs proofs.UnassembledProofs.
+From Mos Require Import model.SymGraph model.Analysis spec.NavSpec proofs.SymGraphProofs proofs.NavProofs proofs.GreedyProofs proofs.FuelProofs proofs.UnassembledProofs model.SymSlots proofs.SlotsProofs.
 
 (* Within one pass: for every graph, scope, path (dotted, `super`, bubbling outward any number of scopes) the
    occurrence's last identifier is recorded as a usage of exactly the node `query` handed to the evaluator for that
@@ -130,6 +130,27 @@ Theorem C16_unassembled_region_leaves_no_trace : forall g extra news,
   fold_left remove news (extra ++ g) = g.
 Proof. exact unassembled_region_leaves_no_trace. Qed.
 Print Assumptions C16_unassembled_region_leaves_no_trace.
+
+(* ... with the node allocator made explicit (model/SymSlots.v: StableGraph hands vacant slots out again, most recently
+   freed first, so a new symbol's index may be SMALLER than indices that existed before): for every well-formed table
+   -- any free list -- and every sequence of definitions the unassembled code makes, analyse_unassembled (snapshot of
+   the existing indices, everything else removed) restores edges and occupied slots exactly. *)
+Theorem C16_analyse_unassembled_leaves_no_trace : forall t r,
+  wf t ->
+  t_edges (analyse_unassembled t r) = t_edges t /\ t_live (analyse_unassembled t r) = t_live t.
+Proof. exact analyse_unassembled_leaves_no_trace. Qed.
+Print Assumptions C16_analyse_unassembled_leaves_no_trace.
+
+(* Removing only the indices at or above a high-water mark is NOT enough: with a vacant slot below the mark the first
+   new symbol lands there, survives, and captures the lookup of its name from its scope (seeded change C16_6). *)
+Theorem C16_high_water_mark_refuted :
+  wf hw_table /\
+  t_edges (analyse_unassembled hw_table hw_region) = t_edges hw_table /\
+  t_edges (analyse_unassembled_high_water hw_table hw_region) = mkEdge 1 hw_foo 2 :: t_edges hw_table /\
+  query 5 (t_edges hw_table) 1 [hw_foo] = Some (Some 3) /\
+  query 5 (t_edges (analyse_unassembled_high_water hw_table hw_region)) 1 [hw_foo] = Some (Some 2).
+Proof. exact high_water_mark_refuted. Qed.
+Print Assumptions C16_high_water_mark_refuted.
 
 (* Out-of-fuel (the `None` of query_traversal_steps) is excluded by name in the statements above.  It never occurs on
    a table whose parent chain from the scope ends (depth d) once fuel exceeds d, and more fuel never changes an
